@@ -188,7 +188,11 @@ def main(prop_default, check_event, setup=None):
                 mon.end_canary()
         else:
             mon.evaluations += 1
-            check_event(mon, ev)
+            try:
+                check_event(mon, ev)
+            except Exception:
+                sys.stderr.write("oracle exception on event: " + line[:2000] + "\n")
+                raise
     if not got_meta:
         # the driver died before finishing: never a verdict
         sys.stderr.write("oracle: event stream ended without meta line (driver crashed?)\n")
